@@ -202,7 +202,8 @@ func c19One(a *c19Args) (res c19Res) {
 			return true
 		}
 		// D must confirm the class on the mutated image
-		md := decode.Decode(m.Img, decode.Options{NoContent: true})
+		mimg := m.Apply(img)
+		md := decode.Decode(mimg, decode.Options{NoContent: true})
 		got := decode.ClassOf(md.Errors)
 		want := m.Class
 		if k := strings.IndexByte(want, ':'); k >= 0 {
@@ -220,7 +221,7 @@ func c19One(a *c19Args) (res c19Res) {
 				}
 			}
 		}
-		if err := os.WriteFile(work, m.Img, 0600); err != nil {
+		if err := os.WriteFile(work, mimg, 0600); err != nil {
 			res.Skipped = err.Error()
 			return false
 		}
@@ -309,7 +310,7 @@ func runC19(c *Ctx) int {
 	}
 	nSweep := c.Pick(12, 96)
 	nSilence := c.Pick(120, 6000)
-	perClass := c.Pick(16, 0)
+	perClass := c.Pick(10, 0)
 	// bases for the sweep: small databases with splits, overflow, nested and inline buckets, persisted freelist
 	sweep := apiPrograms(c.Seed+1900, nSweep, []string{"structural", "buckets", "mixed"}, func(i int, cfg *gen.Config) {
 		cfg.PageSize = []int{1024, 4096, 1024, 2048}[i%4]
@@ -319,6 +320,11 @@ func runC19(c *Ctx) int {
 		cfg.NoBigKeys = true
 		cfg.KeySpace = 260
 	})
+	// hand-shaped bases guarantee every class an eligible target whatever the seed: several paged buckets (also nested),
+	// branch pages, overflow values, an inline bucket, free pages on a persisted list
+	for i := 0; i < len(sweep); i += 2 {
+		sweep[i] = c19ShapedBase(c.Seed+1902, i, []int{1024, 4096, 2048}[(i/2)%3], backends[(i/2)%2])
+	}
 	silence := apiPrograms(c.Seed+1901, nSilence, []string{"mixed", "buckets", "big", "structural", "overwrite"}, func(i int, cfg *gen.Config) {
 		cfg.ROProbe = 0
 	})
@@ -484,7 +490,7 @@ func runC19(c *Ctx) int {
 	cov := map[string]any{
 		"evaluations":         total + good,
 		"distinct_nontrivial": nontriv,
-		"rule": "bases = final files of generated histories (page sizes 1024/2048/4096, splits, overflow values, nested and inline buckets, freelist persisted; every 6th without a persisted list); decode.Mutants enumerates every eligible target of each class: free id removed (unreachable-unfreed), free id duplicated (double-free), first page / each overflow page of a reachable allocation added to the list (reachable-free), bucket root pointer redirected to another bucket's root with the orphaned tree put on the freelist (pure double reference), branch element redirected to its sibling's page (double reference), reachable page's flags set to each of 6 values with neither the branch nor the leaf bit (bad type), neighbouring keys of a leaf / a branch swapped, made equal, or the first byte raised (key order inside a page), first key lowered below / last key raised above the parent's separators (key order against the parent). quick evaluates a seeded sample of 16 targets per class and base, thorough every target. A mutant counts only if D confirms its class on the mutated image. Oracles: Tx.Check (read-only open with preloaded freelist, array and hashmap backend) emits >= 1 error and `bbolt check` exits non-zero; on the unmutated files of all histories both report nothing / exit 0 with OK. Non-trivial fingerprint = (page size, class, pure, outcome per checker) with at least one checker reporting.",
+		"rule": "bases = final files of generated histories (page sizes 1024/2048/4096, splits, overflow values, nested and inline buckets, freelist persisted; every 6th without a persisted list); decode.Mutants enumerates every eligible target of each class: free id removed (unreachable-unfreed), free id duplicated (double-free), first page / each overflow page of a reachable allocation added to the list (reachable-free), bucket root pointer redirected to another bucket's root with the orphaned tree put on the freelist (pure double reference), branch element redirected to its sibling's page (double reference), reachable page's flags set to each of 6 values with neither the branch nor the leaf bit (bad type), neighbouring keys of a leaf / a branch swapped, made equal, or the first byte raised (key order inside a page), first key lowered below / last key raised above the parent's separators (key order against the parent). quick evaluates a seeded sample of 10 targets per class and base, thorough every target. A mutant counts only if D confirms its class on the mutated image. Oracles: Tx.Check (read-only open with preloaded freelist, array and hashmap backend) emits >= 1 error and `bbolt check` exits non-zero; on the unmutated files of all histories both report nothing / exit 0 with OK. Non-trivial fingerprint = (page size, class, pure, outcome per checker) with at least one checker reporting.",
 		"samples":                       samples,
 		"bases":                         bases,
 		"eligible_targets_per_class":    enumTot,
@@ -507,4 +513,51 @@ func runC19(c *Ctx) int {
 		"bad-type mutants use flag values with neither the branch nor the leaf bit; key-order mutants never target the content of inline buckets (not a page)",
 		"a double reference is never pointed at an ancestor (a cycle would be a different fault)",
 	})
+}
+
+// c19ShapedBase builds a base history with a fixed repertoire of structures and seeded sizes.
+func c19ShapedBase(seed int64, caseNo int, ps int, fl string) *gen.Program {
+	r := rand.New(rand.NewSource(seed*1000003 + int64(caseNo)*7919 + 19))
+	p := &gen.Program{Name: "shaped", Seed: seed, Case: caseNo}
+	add := func(st gen.Step) { p.Steps = append(p.Steps, st) }
+	o := gen.OpenOpts{PageSize: ps, Freelist: fl}
+	add(gen.Step{Op: "open", Opts: &o})
+	add(gen.Step{Op: "begin", W: true})
+	add(gen.Step{Op: "create", N: 0})
+	add(gen.Step{Op: "create", N: 1})
+	add(gen.Step{Op: "create", P: []int{0}, N: 2})
+	add(gen.Step{Op: "create", P: []int{1}, N: 3})
+	add(gen.Step{Op: "create", P: []int{0, 2}, N: 4})
+	put := func(path []int, id, vlen int) {
+		add(gen.Step{Op: "put", P: path, K: &gen.K{ID: id}, V: &gen.V{Seed: r.Uint32(), Len: vlen}})
+	}
+	n0 := 100 + r.Intn(80)
+	for i := 0; i < n0; i++ {
+		put([]int{0}, i, ps/8+r.Intn(ps/8))
+	}
+	for i := 0; i < 40+r.Intn(40); i++ {
+		put([]int{1}, i*3, ps/10)
+	}
+	for i := 0; i < 3; i++ {
+		put([]int{1}, 1000+i, ps+r.Intn(2*ps)) // overflow values
+	}
+	for i := 0; i < 30+r.Intn(30); i++ {
+		put([]int{0, 2}, i, ps/6)
+	}
+	put([]int{1, 3}, 1, 10) // stays inline
+	put([]int{1, 3}, 2, 10)
+	for i := 0; i < 20; i++ {
+		put([]int{0, 2, 4}, i, ps/5)
+	}
+	add(gen.Step{Op: "setSeq", P: []int{0, 2}, U: 7})
+	add(gen.Step{Op: "commit"})
+	add(gen.Step{Op: "begin", W: true})
+	add(gen.Step{Op: "delRange", P: []int{0}, K: &gen.K{ID: 0}, K2: &gen.K{ID: 20 + r.Intn(30), Len: 40}})
+	put([]int{1}, 1001, ps+r.Intn(ps))
+	add(gen.Step{Op: "commit"})
+	add(gen.Step{Op: "begin", W: true})
+	put([]int{0}, 5000, 20)
+	add(gen.Step{Op: "commit"})
+	add(gen.Step{Op: "close"})
+	return p
 }
